@@ -41,7 +41,7 @@ def machEps (width : Nat) : Float :=
 def attr (toks : Array String) (key : String) : Option String :=
   toks.findSome? fun t =>
     match t.splitOn "=" with
-    | [k, v] => if k == key then some v else none
+    | k :: v :: rest => if k == key then some ("=".intercalate (v :: rest)) else none
     | _ => none
 
 def attrNat (toks : Array String) (key : String) (dflt : Nat := 0) : Nat :=
